@@ -525,11 +525,152 @@ IRMore == <<
 IRCases == IRMatrix \cup {[k |-> "x", j |-> j] : j \in 1..Len(IRMore)}
 IRFamProg(c) == IF c.k = "m" THEN IRProg(c) ELSE Prog(IRMore[c.j] \o <<SLog(I(50))>>)
 
+\* ======================= family SH: a name declared again by a function nested in the function that uses it ====
+\* The function M uses a name x that it does not declare (x belongs to the script, to the enclosing function - as a variable
+\* or a parameter - or to a function two levels out), while a function N nested INSIDE M declares x once more.  M must
+\* keep reading and writing the outer binding (a second closure G of the owner sees M's writes); N's x is its own.
+\*   own   : who owns the x that M uses
+\*   inner : how N declares its x (var, var used before its declaration, for-in / for-of head, parameter, function declaration,
+\*           catch parameter, own name of a named function expression)
+\*   nest  : how N sits in M (function expression, arrow, function declaration, forEach callback, function called in place,
+\*           function returned by another nested function; "self": the catch clause is M's own)
+\*   lvl   : what M is (function declaration, function expression, arrow)
+SHOwns == {"global", "outer", "outerparam", "outer2"}
+SHInners == {"var", "latevar", "forin", "forof", "param", "fdecl", "catch", "ownname"}
+SHNests == {"fexpr", "arrow", "decl", "cb", "iife", "deep", "self"}
+SHLvls == {"fn", "fexpr", "arrow"}
+X == Var("x")
+SHNBody(inner) ==
+  CASE inner = "var" -> <<SVar1("x", I(40)), Set("x", Plus(X, I(2))), SLog(X), SRet(X)>>
+    [] inner = "latevar" -> <<SLog(TypeOf(X)), SVar1("x", I(42)), SRet(X)>>
+    [] inner = "forin" -> <<SForIn(TRUE, "x", Obj(<<"k">>, <<I(1)>>), SBlock(<<SLog(X)>>)), SRet(I(42))>>
+    [] inner = "forof" -> <<SForOf(TRUE, "x", Arr(<<I(41)>>), SBlock(<<SLog(X)>>)), SRet(I(42))>>
+    [] inner = "param" -> <<Set("x", Plus(X, I(1))), SLog(X), SRet(X)>>
+    [] inner = "fdecl" -> <<SLog(TypeOf(X)), SRet(Call(X, <<I(41)>>)), SFun("x", <<"a">>, <<SRet(Plus(Var("a"), I(1)))>>)>>
+    [] inner = "catch" -> <<STry(SBlock(<<SThrow(I(41))>>), "x", SBlock(<<Set("x", Plus(X, I(1))), SLog(X)>>), NoS), SRet(I(42))>>
+    [] inner = "ownname" -> <<SLog(TypeOf(X)), SRet(Plus(Var("q"), I(1)))>>
+SHNFun(c) ==
+  LET ps == IF c.inner = "param" THEN <<"x">> ELSE <<"q">> IN
+  IF c.nest = "arrow" THEN Arrow(ps, SHNBody(c.inner)) ELSE Fun(IF c.inner = "ownname" THEN "x" ELSE "", ps, SHNBody(c.inner))
+\* the part of M that declares and runs N
+SHNestPart(c) ==
+  CASE c.nest \in {"fexpr", "arrow"} -> <<SVar1("N", SHNFun(c)), SLog(Call(Var("N"), <<I(41)>>))>>
+    [] c.nest = "decl" -> <<SLog(Call(Var("N"), <<I(41)>>)), SFun("N", IF c.inner = "param" THEN <<"x">> ELSE <<"q">>, SHNBody(c.inner))>>
+    [] c.nest = "cb" -> <<SExpr(Call(Dot(Arr(<<I(41)>>), "forEach"), <<SHNFun(c)>>))>>
+    [] c.nest = "iife" -> <<SLog(Call(SHNFun(c), <<I(41)>>))>>
+    [] c.nest = "deep" -> <<SVar1("P", Fun("", <<>>, <<SRet(SHNFun(c))>>)), SLog(Call(Call(Var("P"), <<>>), <<I(41)>>))>>
+    [] c.nest = "self" -> <<STry(SBlock(<<SThrow(I(41))>>), "x", SBlock(<<Set("x", Plus(X, I(1))), SLog(X)>>), NoS)>>
+SHMBody(c) == <<SLog(X), Set("x", Plus(X, I(5)))>> \o SHNestPart(c)
+              \o <<SLog(X), SExpr(Upd("++", FALSE, "x")), SLog(TypeOf(X)), SRet(X)>>
+SHMDef(c) == CASE c.lvl = "fn" -> SFun("M", <<>>, SHMBody(c))
+               [] c.lvl = "fexpr" -> SVar1("M", Fun("", <<>>, SHMBody(c)))
+               [] c.lvl = "arrow" -> SVar1("M", Arrow(<<>>, SHMBody(c)))
+SHUse == <<SLog(Call(Var("M"), <<>>)), SLog(Call(Var("G"), <<>>)), SLog(X), SLog(Call(Var("M"), <<>>)), SLog(Call(Var("G"), <<>>))>>
+SHProg(c) ==
+  CASE c.own = "global" -> Prog(<<SVar1("x", I(1)), SFun("G", <<>>, <<SRet(X)>>), SHMDef(c)>> \o SHUse \o <<SLog(I(50))>>)
+    [] c.own = "outer" -> Prog(<<SFun("O", <<>>, <<SVar1("x", I(1)), SVar1("G", Getter("x")), SHMDef(c)>> \o SHUse),
+                                 SExpr(Call(Var("O"), <<>>)), SExpr(Call(Var("O"), <<>>)), SLog(I(50))>>)
+    [] c.own = "outerparam" -> Prog(<<SFun("O", <<"x">>, <<SVar1("G", Getter("x")), SHMDef(c)>> \o SHUse),
+                                      SExpr(Call(Var("O"), <<I(1)>>)), SExpr(Call(Var("O"), <<I(3)>>)), SLog(I(50))>>)
+    [] c.own = "outer2" -> Prog(<<SFun("O", <<>>, <<SVar1("x", I(1)), SVar1("G", Getter("x")),
+                                                    SVar1("M", Call(Fun("", <<>>, <<SHMDef(c), SRet(Var("M"))>>), <<>>))>> \o SHUse),
+                                  SExpr(Call(Var("O"), <<>>)), SExpr(Call(Var("O"), <<>>)), SLog(I(50))>>)
+SHAll == [own : SHOwns, inner : SHInners, nest : SHNests, lvl : SHLvls]
+SHValid(c) ==
+  /\ (c.inner = "ownname" => c.nest \in {"fexpr", "cb", "iife", "deep"})          \* only a function expression has a name of its own
+  /\ (c.nest = "self" => c.inner = "catch")                                        \* the catch clause is M's own
+\* quick: every (inner, nest) pair under a function expression of an enclosing function; every (owner, level) with the two
+\* plain nestings; every inner kind for a global used by a function declaration through a callback
+SHQuickSel(c) ==
+  \/ (c.own = "outer" /\ c.lvl = "fexpr")
+  \/ (c.inner = "var" /\ c.nest \in {"fexpr", "arrow"})
+  \/ (c.own = "global" /\ c.lvl = "fn" /\ c.nest = "cb")
+  \/ (c.own = "outer2" /\ c.lvl = "arrow" /\ c.nest = "iife")
+SHCases == {c \in SHAll : SHValid(c) /\ (~Quick \/ SHQuickSel(c))}
+
+\* ======================= family BL: block structure of a statement list =======================================
+\* A statement list is written as a string over  a { }  (a = a logging statement, { } = a bare block around a list): every
+\* balanced string with at least one block and no two adjacent a's, up to a length, is put into every kind of container
+\* (script, bare block, if / else branch, the five loop bodies, labelled block, try / catch / finally block, case clause,
+\* function / arrow / callback body), at script level and in a function; the second leaf may leave the container early.
+BLToks == {"a", "{", "}"}
+RECURSIVE BLBalanced(_, _, _), BLCat(_)
+BLBalanced(t, p, d) == IF p > Len(t) THEN d = 0
+                       ELSE IF t[p] = "{" THEN BLBalanced(t, p + 1, d + 1)
+                       ELSE IF t[p] = "}" THEN d > 0 /\ BLBalanced(t, p + 1, d - 1)
+                       ELSE BLBalanced(t, p + 1, d)
+BLCat(t) == IF Len(t) = 0 THEN "" ELSE t[1] \o BLCat(Tail(t))
+BLShapes(n) == {BLCat(t) : t \in {u \in UNION {[1..m -> BLToks] : m \in 2..n} :
+                                    /\ BLBalanced(u, 1, 0) /\ (\E j \in 1..Len(u) : u[j] = "{")
+                                    /\ \A j \in 1..(Len(u) - 1) : ~(u[j] = "a" /\ u[j + 1] = "a")}}
+Ch(x, p) == SubSeq(x, p, p)
+BLLeaves(x) == {p \in 1..Len(x) : Ch(x, p) = "a"}
+\* position of the leaf that carries the exit: the second leaf if there is one, else the first (0: none)
+BLExitPos(x) == LET L == BLLeaves(x) IN
+                IF L = {} THEN 0
+                ELSE LET first == CHOOSE p \in L : \A q \in L : p <= q IN
+                     IF L = {first} THEN first ELSE CHOOSE p \in L \ {first} : \A q \in L \ {first} : p <= q
+BLExitStmt(ex) == CASE ex = "continue" -> SCont("") [] ex = "break" -> SBreak("") [] ex = "breakL" -> SBreak("L")
+BLLeaf(c, p) == IF c.ex # "none" /\ p = BLExitPos(c.sh)
+                THEN <<SLog(I(p)), SIf(Bin("==", N, I(IF c.ex = "breakL" THEN 0 ELSE 1)), SBlock(<<BLExitStmt(c.ex)>>), NoS)>>
+                ELSE <<SLog(I(p))>>
+\* statements of the list that starts at position p (up to the closing brace of the enclosing block), and where it ends
+RECURSIVE BLParse(_, _)
+BLParse(c, p) ==
+  IF p > Len(c.sh) \/ Ch(c.sh, p) = "}" THEN [ss |-> <<>>, p |-> p]
+  ELSE IF Ch(c.sh, p) = "a" THEN LET r == BLParse(c, p + 1) IN [ss |-> BLLeaf(c, p) \o r.ss, p |-> r.p]
+  ELSE LET inner == BLParse(c, p + 1)
+           rest == BLParse(c, inner.p + 1)
+       IN [ss |-> <<SBlock(inner.ss)>> \o rest.ss, p |-> rest.p]
+BLList(c) == BLParse(c, 1).ss
+BLLoops == {"while", "dowhile", "for", "forin", "forof"}
+BLStmtConts == {"block", "ifthen", "else", "label", "try", "catch", "finally", "case"} \cup BLLoops
+BLBodyConts == {"top", "fnbody", "arrow", "cb"}
+BLRound(list) == SBlock(<<Inc("n")>> \o list)
+BLWrap(cont, list) ==
+  CASE cont = "block" -> <<SBlock(list)>>
+    [] cont = "ifthen" -> <<SIf(Bin("<", N, I(1)), SBlock(list), NoS)>>
+    [] cont = "else" -> <<SIf(Bin("<", N, I(0)), SBlock(<<SLog(EStr("then"))>>), SBlock(list))>>
+    [] cont = "while" -> <<SWhile(Bin("<", N, I(2)), BLRound(list))>>
+    [] cont = "dowhile" -> <<SDo(BLRound(list), Bin("<", N, I(2)))>>
+    [] cont = "for" -> <<SFor(SVar1("i", I(0)), Bin("<", Var("i"), I(2)), Upd("++", FALSE, "i"), BLRound(list))>>
+    [] cont = "forin" -> <<SForIn(TRUE, "k", Obj(<<"p", "q">>, <<I(1), I(2)>>), BLRound(list))>>
+    [] cont = "forof" -> <<SForOf(TRUE, "v", Arr(<<I(7), I(8)>>), BLRound(list))>>
+    [] cont = "label" -> <<SLabel("L", SBlock(list))>>
+    [] cont = "try" -> <<STry(SBlock(list), "e", NoS, SBlock(<<SLog(EStr("F"))>>))>>
+    [] cont = "catch" -> <<STry(SBlock(<<SThrow(I(1))>>), "e", SBlock(list), NoS)>>
+    [] cont = "finally" -> <<STry(SBlock(<<SLog(EStr("T"))>>), "e", NoS, SBlock(list))>>
+    [] cont = "case" -> <<SSwitch(I(1), <<Case(I(1), list \o <<SBreak("")>>), Case(I(2), <<SLog(EStr("c2"))>>)>>)>>
+BLProg(c) ==
+  LET list == BLList(c)
+      tail == <<SLog(I(90))>>
+  IN CASE c.cont = "top" -> Prog(<<SVar1("n", I(0))>> \o list \o tail \o <<SLog(I(50))>>)
+       [] c.cont = "fnbody" -> Prog(<<SFun("f", <<>>, <<SVar1("n", I(0))>> \o list \o tail \o <<SRet(I(7))>>), SLog(Plus(CallF, I(100))), SLog(I(50))>>)
+       [] c.cont = "arrow" -> Prog(<<SVar1("f", Arrow(<<>>, <<SVar1("n", I(0))>> \o list \o tail \o <<SRet(I(7))>>)), SLog(Plus(CallF, I(100))), SLog(I(50))>>)
+       [] c.cont = "cb" -> Prog(<<SVar1("n", I(0)), SExpr(Call(Dot(Arr(<<I(1), I(2)>>), "forEach"), <<Fun("", <<"q">>, list \o tail)>>)), SLog(I(50))>>)
+       [] c.pl = "top" -> Prog(<<SVar1("n", I(0))>> \o BLWrap(c.cont, list) \o tail \o <<SLog(I(50))>>)
+       [] OTHER -> Prog(<<SFun("f", <<>>, <<SVar1("n", I(0))>> \o BLWrap(c.cont, list) \o tail \o <<SRet(I(7))>>), SLog(Plus(CallF, I(100))), SLog(I(50))>>)
+BLMaxLen == IF Quick THEN 6 ELSE 7
+BLAll == [sh : BLShapes(BLMaxLen), cont : BLStmtConts \cup BLBodyConts, pl : {"top", "fn"}, ex : {"none", "continue", "break", "breakL"}]
+BLValid(c) ==
+  /\ (c.cont \in BLBodyConts => c.pl = "fn" /\ c.ex = "none")
+  /\ (c.ex \in {"continue", "break"} => c.cont \in BLLoops)
+  /\ (c.ex = "breakL" => c.cont = "label")
+  /\ (c.ex # "none" => c.pl = "top" /\ BLLeaves(c.sh) # {})
+\* quick: every shape in a bare block and in a while body; the two-sibling shape in every container at both placements;
+\* exits from two shapes in every loop kind and the labelled block
+BLQuickSel(c) ==
+  \/ (c.cont \in {"block", "while"} /\ c.pl = "top" /\ c.ex = "none")
+  \/ (c.sh = "{a}{a}" /\ c.ex = "none")
+  \/ (c.sh \in {"{a}{a}", "{{a}a}"} /\ c.ex # "none")
+BLCases == {c \in BLAll : BLValid(c) /\ (~Quick \/ BLQuickSel(c))}
+
 \* ======================= the case space ===========================================================
 FamilyProg(cs) == CASE cs.fam = "CF" -> CFProg(cs.c) [] cs.fam = "SW" -> SWProg(cs.c) [] cs.fam = "EO" -> EOProg(cs.c.j)
                     [] cs.fam = "HO" -> HOProg(cs.c.j) [] cs.fam = "CV" -> CVProg(cs.c.j) [] cs.fam = "CL" -> CLProg(cs.c)
                     [] cs.fam = "CH" -> CHProg(cs.c) [] cs.fam = "IR" -> IRFamProg(cs.c)
-Fams == IF "FAMS" \in DOMAIN IOEnv THEN IOEnv.FAMS ELSE "CF SW EO HO CV CL CH IR"
+                    [] cs.fam = "SH" -> SHProg(cs.c) [] cs.fam = "BL" -> BLProg(cs.c)
+Fams == IF "FAMS" \in DOMAIN IOEnv THEN IOEnv.FAMS ELSE "CF SW EO HO CV CL CH IR SH BL"
 Has(f) == \E j \in 1..(Len(Fams) - 1) : SubSeq(Fams, j, j + 1) = f
 AllCases == (IF Has("CF") THEN {[fam |-> "CF", c |-> c] : c \in CFCases} ELSE {})
             \cup (IF Has("SW") THEN {[fam |-> "SW", c |-> c] : c \in SWCases} ELSE {})
@@ -539,6 +680,8 @@ AllCases == (IF Has("CF") THEN {[fam |-> "CF", c |-> c] : c \in CFCases} ELSE {}
             \cup (IF Has("CL") THEN {[fam |-> "CL", c |-> c] : c \in CLCases} ELSE {})
             \cup (IF Has("CH") THEN {[fam |-> "CH", c |-> c] : c \in CHCases} ELSE {})
             \cup (IF Has("IR") THEN {[fam |-> "IR", c |-> c] : c \in IRCases} ELSE {})
+            \cup (IF Has("SH") THEN {[fam |-> "SH", c |-> c] : c \in SHCases} ELSE {})
+            \cup (IF Has("BL") THEN {[fam |-> "BL", c |-> c] : c \in BLCases} ELSE {})
 
 \* ======================= state machine around MiniJS ===============================================
 VARIABLES rec_i, cur, mst                \* rec_i: judged record; cur: enumerated case; mst: machine state
@@ -558,9 +701,10 @@ EnumEmit == ~Halted(mst) \/ PrintT(ToJson([fam |-> cur.fam, par |-> cur.c, prog 
 Recs == ndJsonDeserialize(IOEnv.OBS_FILE)                 \* [id, prog, devs, log, out, pos]
 \* named deviations (as-is rules of the engine for recorded findings); "*" selects all of them
 \* (the as-is rules of repaired defects - Dev_NoFnHoist, Dev_NoGlobalVarHoist, Dev_VarRedecl, Dev_SwitchDefaultOrder,
-\*  Dev_CallbackThrow, Dev_CatchParamScope, Dev_ErrorHierarchy, Dev_NoRuntimeLoc, Dev_NoLocInFunctions, Dev_LocNextStatement - stay in MiniJS as documentation of what
+\*  Dev_CallbackThrow, Dev_CatchParamScope, Dev_ErrorHierarchy, Dev_NoRuntimeLoc, Dev_NoLocInFunctions, Dev_LocNextStatement, Dev_OwnNameSlot (repaired by
+\*  9a85e54) - stay in MiniJS as documentation of what
 \*  the snapshot did; they are no longer switched on, so a regression is a VIOLATION)
-AllDevs == {"Dev_CompletionTail", "Dev_ArrowArguments", "Dev_OwnNameSlot", "Dev_CatchParamShared", "Dev_LocAfterLoopBody"}
+AllDevs == {"Dev_CompletionTail", "Dev_ArrowArguments", "Dev_CatchParamShared", "Dev_LocAfterLoopBody"}
 DevsOf(r) == LET S == {r.devs[j] : j \in 1..Len(r.devs)} IN IF "*" \in S THEN AllDevs ELSE S
 \* r.pos: [nid, line, column, statement line, statement column] per marked node (harness/render.py).  A location reported
 \* for node nid is right if it is the node's own position or the start of the statement that contains it
